@@ -625,7 +625,7 @@ def gen_block(rng):
             'how': rng.choice(['ctor', 'ctor', 'setter', 'setter-bad', 'inplace', 'handed-over'])}
     if block == 'namespace':
         case['ids'] = [rng.choice(NS_IDS) for _ in range(rng.choice([0, 1, 1, 2, 2, 3, 4]))]
-        case['ids_via'] = rng.choice(['list', 'NamespaceIds', 'dot', 'colons'])
+        case['ids_via'] = rng.choice(['list', 'NamespaceIds', 'dot', 'colons', 'sum', 'sum'])
     elif block in ('struct', 'class'):
         case['name'] = rng.choice(OWNERS)
     elif block == 'section':
@@ -689,9 +689,17 @@ def check_block(case):
             if block == 'namespace':
                 ids = list(case['ids'])
                 via = case.get('ids_via', 'list')
-                nsi = NamespaceIds(ids) if via == 'NamespaceIds' or not ids else \
+                nsi = NamespaceIds(ids) if via in ('NamespaceIds', 'sum') or not ids else \
                     ns_ids_t('.'.join(ids)) if via == 'dot' else \
                     ns_ids_t('::'.join(ids)) if via == 'colons' else ns_ids_t(ids)
+                derived = None
+                if via == 'sum':
+                    # the script also names a namespace below this one: a sum with the (empty)
+                    # root or sub-namespace list, extended in place - before the block exists
+                    # or (below) after; the sum is the script's own value
+                    derived = (NamespaceIds([]) + nsi) if len(lines) % 2 else (nsi + NamespaceIds([]))
+                    if len(ids) % 2:
+                        derived += NamespaceIds(['v2'])
                 obj = G.Namespace(nsi, first) if first.lines or how != 'ctor' or ids else \
                     G.Namespace(nsi)
             else:
@@ -750,6 +758,12 @@ def check_block(case):
                         bump('unspecified_setter_none_raises_valueerror')
                     else:
                         out('contents-setter-wrong-exception:ValueError', {'value': repr(bad)})
+            if block == 'namespace' and derived is not None:
+                if not len(ids) % 2:
+                    derived += NamespaceIds(['v2'])
+                bump('namespace_named_next_to_a_sum_that_was_extended_in_place')
+                check_scoped_block(dict(case, ids=ids + ['v2']), [], str(G.Namespace(derived)),
+                                   out, bump)
             text = str(obj)
             if str(obj) != text:
                 out(f'{block}-render-not-repeatable', {'text': text})
@@ -1339,6 +1353,7 @@ def main(tier: str) -> int:
                 'contents_form_comment', 'contents_form_headed', 'contents_form_nested',
                 'contents_handed_over_then_filled', 'descriptions_completed_in_place_after_rendering',
                 'default_parameter_list_extended_in_place',
+                'namespace_named_next_to_a_sum_that_was_extended_in_place',
                 'tus_compiled', 'classes_compiled', 'compiler_invocations_g++')
     for _item, res in run.pmap(_worker, items, chunksize=1, timeout=900):
         absorb_batch(run, res)
